@@ -27,6 +27,18 @@ inductive MemoKind where
   | lru | cprop | hasattr
 deriving DecidableEq, Repr
 
+/-- which of a component's nodes a detaching loop `for node in <iter>: node.remove(cpt)` visits:
+    `all` for `cpt.nodes`, `slice a b` for `cpt.nodes[a:b]` (GENERATED from the loop's iteration expression) -/
+inductive DetachSel where
+  | all
+  | slice (a : Nat) (b : Option Nat)
+deriving DecidableEq, Repr
+
+def DetachSel.pick : DetachSel → List String → List String
+  | .all, ns => ns
+  | .slice a none, ns => ns.drop a
+  | .slice a (some b), ns => (ns.take b).drop a
+
 structure Config where
   memoised : List (String × MemoKind)
   cleared : List String
@@ -43,6 +55,18 @@ structure Config where
   deps : List (String × List String)
   reads : List (String × List String)
   spawns : List String
+  /-- nodes `Netlist.remove` detaches the component from -/
+  removeSel : DetachSel := .all
+  /-- nodes the override branch of `_cpt_add` detaches the old component from -/
+  overrideSel : DetachSel := .all
+  /-- `(query, slot)`: the public read-only member `query` hands the cached object of `slot` to a helper that
+      calls mutating methods on it (AST scan of the package) -/
+  damages : List (String × String) := []
+  /-- a component whose construction / registration raises is detached again from the nodes its constructor
+      attached it to -/
+  failedAddDetaches : Bool := true
+  /-- `add` reaches `_invalidate()` also when `_add` raises (it stands in a `finally`) -/
+  addInvalidatesOnError : Bool := true
 
 structure Elt where
   name : String
@@ -211,8 +235,22 @@ def readSlots (cfg : Config) (i : Nat) : World → List String → World × Prov
     let (w2, ps) := readSlots cfg i w1 ds
     (w2, (d, m.map (fun m => (m.ver, m.clean))) :: ps)
 
+/-- slots whose cached object the member `q` mutates -/
+def Config.damagedBy (cfg : Config) (q : String) : List String := (cfg.damages.filter (fun p => p.1 = q)).map (·.2)
+
+/-- a cached object that was mutated no longer reflects the elements it was computed from -/
+def dirty (ds : List String) (m : Memo) : Memo := if ds.contains m.slot then { m with clean := false } else m
+
+/-- effect of a query that mutates cached objects of instance `i` -/
+def damage (cfg : Config) (w : World) (i : Nat) (q : String) : World :=
+  match w.insts[i]? with
+  | none => w
+  | some inst =>
+    { w with insts := w.insts.set i { inst with memo := inst.memo.map (dirty (cfg.damagedBy q)) },
+             lru := w.lru.map (fun p => if p.1 = i then (p.1, dirty (cfg.damagedBy q) p.2) else p) }
+
 def query (cfg : Config) (w : World) (i : Nat) (q : String) : World × Prov :=
-  readSlots cfg i w (cfg.readsOf q)
+  (damage cfg (readSlots cfg i w (cfg.readsOf q)).1 i q, (readSlots cfg i w (cfg.readsOf q)).2)
 
 /-! ### operations -/
 
@@ -232,6 +270,10 @@ inductive Op where
   /-- `copy`, `subs`, `kill`, `select`, `simplify`, ...: reads `pre` on the source, then builds a
       new instance from `es` with `_new()` and `_add` -/
   | derive (i : Nat) (pre : String) (es : List Elt)
+  /-- public `add` of a string whose lines `es` are fine and whose next line raises: before the component is
+      constructed (`late = false`: unknown type, missing node, too many fields -- nothing was touched) or after
+      its constructor attached it to its nodes (`late = true`: bad value expression, reserved name) -/
+  | addFail (i : Nat) (es : List Elt) (e : Elt) (late : Bool)
 deriving DecidableEq, Repr
 
 def Op.target : Op → Option Nat
@@ -242,6 +284,7 @@ def Op.target : Op → Option Nat
   | .remove i _ => some i
   | .query i _ => some i
   | .derive i _ _ => some i
+  | .addFail i _ _ _ => some i
 
 /-- `Netlist.__init__`: a new empty instance; `_invalidate()` there clears the class-level slots -/
 def newInst (cfg : Config) (w : World) : World :=
@@ -255,7 +298,7 @@ def addRawInst (cfg : Config) (inst : Inst) (e : Elt) : Inst × Bool :=
   match findElt inst.elts e.name with
   | some old =>
     if cfg.overrideDetaches then
-      match detachAll cfg.keepConnectedNode t1 old.nodes old.counted with
+      match detachAll cfg.keepConnectedNode t1 (cfg.overrideSel.pick old.nodes) old.counted with
       | .inr t2 => ({ inst with elts := upsert inst.elts e, tab := t2 }, true)
       | .inl t2 => ({ inst with tab := t2 }, false)
     else ({ inst with elts := upsert inst.elts e, tab := t1 }, true)
@@ -288,6 +331,21 @@ def addLines (cfg : Config) (w : World) (i : Nat) (es : List Elt) : World × Boo
     let w1 : World := { w with insts := w.insts.set i r.1 }
     if r.2 && cfg.addMultiInvalidates then (invalidate cfg w1 i, r.2) else (w1, r.2)
 
+/-- the raising line: the constructor attached the component to its nodes and nobody detaches it -/
+def failInst (cfg : Config) (inst : Inst) (e : Elt) (late : Bool) : Inst :=
+  if late && !cfg.failedAddDetaches then { inst with tab := attachElt inst.tab e } else inst
+
+/-- `add(text)` in which the line after `es` raises: the lines before it were added, the exception skips the
+    `_invalidate()` unless it stands in a `finally` -/
+def addFail (cfg : Config) (w : World) (i : Nat) (es : List Elt) (e : Elt) (late : Bool) : World × Bool :=
+  match w.insts[i]? with
+  | none => (w, false)
+  | some inst =>
+    let r := addLinesInst cfg inst es
+    let inst' := if r.2 then failInst cfg r.1 e late else r.1
+    let w1 : World := { w with insts := w.insts.set i inst' }
+    (if cfg.addInvalidatesOnError then invalidate cfg w1 i else w1, false)
+
 def remove (cfg : Config) (w : World) (i : Nat) (nm : String) : World × Bool :=
   match w.insts[i]? with
   | none => (w, false)
@@ -299,7 +357,7 @@ def remove (cfg : Config) (w : World) (i : Nat) (nm : String) : World × Bool :=
       match w0.insts[i]? with
       | none => (w0, false)
       | some inst0 =>
-        match detachAll cfg.keepConnectedNode inst0.tab e.nodes e.counted with
+        match detachAll cfg.keepConnectedNode inst0.tab (cfg.removeSel.pick e.nodes) e.counted with
         | .inr t => ({ w0 with insts := w0.insts.set i { inst0 with elts := eraseName inst0.elts nm, tab := t } }, true)
         | .inl t => ({ w0 with insts := w0.insts.set i { inst0 with tab := t } }, false)
 
@@ -320,6 +378,7 @@ def step (cfg : Config) (w : World) (op : Op) : World × Bool :=
   | .remove i nm => remove cfg w i nm
   | .query i q => ((query cfg w i q).1, true)
   | .derive i pre es => (derive cfg w i pre es, true)
+  | .addFail i es e late => addFail cfg w i es e late
 
 def run (cfg : Config) : World → List Op → World
   | w, [] => w
@@ -331,6 +390,13 @@ def World.empty : World := ⟨[], [], 0⟩
 def build (es : List Elt) : World := ⟨[⟨es, buildTab es, []⟩], [], 0⟩
 
 def eltsOf (w : World) (i : Nat) : List Elt := (w.insts[i]?.map (·.elts)).getD []
+
+/-- the ABSTRACT state: what the netlists are (elements and node tables of every instance), without any memo -/
+def World.abs (w : World) : List (List Elt × NodeTab) := w.insts.map (fun x => (x.elts, x.tab))
+
+/-- forget every memo entry (per-instance and class-level) and the clock -/
+def stripI (x : Inst) : Inst := { x with memo := [] }
+def strip (w : World) : World := ⟨w.insts.map stripI, [], 0⟩
 
 /-! ### observations -/
 
